@@ -270,6 +270,9 @@ func (cs *ContractSet) ParseContractText(file, pkgPath, pkgName, text string) {
 				m = strings.TrimSpace(m)
 				if m != "" && m != "nothing" {
 					cur.Modifies = append(cur.Modifies, m)
+					if strings.HasPrefix(m, "contents(") {
+						cur.Allocates = true // append may move the elements to a fresh backing array
+					}
 				}
 			}
 		case "loop":
